@@ -216,6 +216,27 @@ Theorem C27_i64_inj : forall a b : N, a < 2 ^ 64 -> b < 2 ^ 64 ->
 Proof. intros a b Ha Hb. split; [apply to_i64_inj; assumption | apply to_i64_range; assumption]. Qed.
 Print Assumptions C27_i64_inj.
 
+(* ================================================================== sizes and ranges of the results *)
+(* digests have their standard sizes (so the hex text is twice as long); hmac returns the hash's size *)
+Theorem C27_digest_lengths : forall m : bytes,
+  List.length (md5 m) = 16%nat /\ List.length (sha1 m) = 20%nat
+  /\ (forall v, List.length (sha2_spec v m) = sha2_outlen v)
+  /\ (forall v, List.length (sha3_spec v m) = sha3_outlen v)
+  /\ (forall a k, List.length (hmac_spec a k m) = hmac_outlen a).
+Proof.
+  intros m. split; [apply md5_length | split; [apply sha1_length' | split; [| split]]]; intros.
+  - apply sha2_spec_length. - apply sha3_spec_length. - apply hmac_spec_length.
+Qed.
+Print Assumptions C27_digest_lengths.
+
+(* the integer results are genuine 32-/64-bit words, so C27_i64_inj applies to them *)
+Theorem C27_word_ranges : forall m : bytes,
+  xxh32 m < 2 ^ 32 /\ xxh64 m < 2 ^ 64 /\ xxh3_64 m < 2 ^ 64 /\ seahash m < 2 ^ 64.
+Proof.
+  intros m. split; [apply xxh32_lt | split; [apply xxh64_lt | split; [apply xxh3_64_lt | apply seahash_lt]]].
+Qed.
+Print Assumptions C27_word_ranges.
+
 (* ================================================================== pinned to the standards *)
 Theorem C27_sha512t_iv :
   sha512t_iv_gen (str "SHA-512/224") = iv512_224 /\ sha512t_iv_gen (str "SHA-512/256") = iv512_256.
